@@ -123,25 +123,26 @@ theorem C18_join_slash (p : Bytes) (n : Name) :
     result depends only on the configuration, the expression, its own tree and the output so far);
     after -quit nothing further is processed. -/
 theorem C18_order (c : Config) (m : M Prim) (start : Bytes) (root : Option (Node Attr))
-    (rest : List (Bytes × Option (Node Attr))) (out : Bytes) (ret diags : Nat) :
-    doFind c m ((start, root) :: rest) out ret diags =
-      (let r := processDir c m start root out
+    (rest : List (Bytes × Option (Node Attr))) (g : GS) (ret diags : Nat) :
+    doFind c m ((start, root) :: rest) g ret diags =
+      (let r := processDir c m start root g
        let ret' := if r.ret != 0 then r.ret else ret
-       if r.quit then ⟨r.out, ret', true, diags + r.diags⟩
-       else doFind c m rest r.out ret' (diags + r.diags)) := by
+       if r.quit then ⟨r.gs, ret', true, diags + r.diags⟩
+       else doFind c m rest r.gs ret' (diags + r.diags)) := by
   rw [doFind]
 
-/-- A starting point that cannot be examined: one diagnostic, nothing printed, the others are
-    processed as if it had not been given … -/
+/-- A starting point that cannot be examined: one diagnostic, nothing printed (`finishDir` only
+    dispatches pending `-exec … +` command lines), the others are processed as if it had not been given … -/
 theorem C18_isolation (c : Config) (m : M Prim) (start : Bytes)
-    (rest : List (Bytes × Option (Node Attr))) (out : Bytes) (ret diags : Nat) :
-    doFind c m ((start, none) :: rest) out ret diags = doFind c m rest out 1 (diags + 1) := by
+    (rest : List (Bytes × Option (Node Attr))) (g : GS) (ret diags : Nat) :
+    (doFind c m ((start, none) :: rest) g ret diags) =
+      doFind c m rest (finishDir m { g with curDir := none }).1 1 (diags + 1) := by
   rw [doFind]; simp [processDir]
 
 /-- … and the exit status stays non-zero. -/
 theorem C18_status_sticky (c : Config) (m : M Prim) (roots : List (Bytes × Option (Node Attr)))
-    (out : Bytes) (ret diags : Nat) (h : ret ≠ 0) : (doFind c m roots out ret diags).ret ≠ 0 := by
-  induction roots generalizing out ret diags with
+    (g : GS) (ret diags : Nat) (h : ret ≠ 0) : (doFind c m roots g ret diags).ret ≠ 0 := by
+  induction roots generalizing g ret diags with
   | nil => simpa [doFind] using h
   | cons r rs ih =>
     obtain ⟨start, root⟩ := r
